@@ -45,7 +45,19 @@ impl Quil for Delay {
             write!(writer, " {}", QuotedString(frame_name))?;
         }
         write!(writer, " ",)?;
-        self.duration.write(writer, fall_back_to_debug)
+        // The DELAY grammar reads qubits greedily: without frame names in between, a duration that
+        // starts with an integer, an identifier (`pi`, `sin(..)`, a memory reference) or a variable
+        // would be taken for part of the qubit list when parsed back.  Only a plain non-negative
+        // real literal is unambiguous there; anything else is parenthesized.
+        let unambiguous = !self.frame_names.is_empty()
+            || matches!(&self.duration, Expression::Number(value) if value.im == 0.0 && value.re >= 0.0);
+        if unambiguous {
+            self.duration.write(writer, fall_back_to_debug)
+        } else {
+            write!(writer, "(")?;
+            self.duration.write(writer, fall_back_to_debug)?;
+            write!(writer, ")").map_err(Into::into)
+        }
     }
 }
 
